@@ -1,8 +1,91 @@
 import TRV.Oracle.Util
-/-! Oracle operations: Policy (stub, filled in by the module that owns it). -/
+import TRV.Spec.Policy
+/-! Oracle operations for the TCP method policy model (C20). -/
 namespace TRV.Oracle.Policy
-open TRV.Oracle
+open TRV TRV.Oracle TRV.Policy TRV.Spec.Policy
 
-def handlers : List (String × Handler) := []
+def parseMethod (s : String) : Option Method :=
+  if s = "empty" then some .empty
+  else if s = "syn" then some .syn
+  else if s = "sack" then some .sack
+  else if s = "prefer_sack" then some .preferSack
+  else if s = "syn_socket" then some .synSocket
+  else if s = "other" then some .other
+  else none
+
+def showMethod : Method → String
+  | .empty => "empty" | .syn => "syn" | .sack => "sack" | .preferSack => "prefer_sack"
+  | .synSocket => "syn_socket" | .other => "other"
+
+def parseLayer (s : String) : Option Layer :=
+  if s = "N" then some .notSupported else s.toNat?.map .msg
+
+def showLayer : Layer → String
+  | .notSupported => "N"
+  | .msg i => toString i
+
+def showChain (c : Chain) : String := if c.isEmpty then "-" else ",".intercalate (c.map showLayer)
+
+/-- `ok:<marker>` | `err:<layer>,<layer>,…` (layer = `N` or a tag number) -/
+def parseOut (s : String) : Option Out :=
+  match splitOn s ':' with
+  | ["ok", r] => r.toNat?.map .ok
+  | ["err", c] => if c = "-" then some (.err []) else ((splitOn c ',').mapM parseLayer).map .err
+  | _ => none
+
+def showOut : Out → String
+  | .ok r => s!"ok:{r}"
+  | .err c => s!"err:{showChain c}"
+
+/-- `pol.fallback <method> <syn> <sack> <sock>` → `<result> <nSyn> <nSack> <nSock>` -/
+def fallbackH : Handler
+  | [m, syn, sack, sock] => orBad do
+    let m ← parseMethod m
+    let syn ← parseOut syn; let sack ← parseOut sack; let sock ← parseOut sock
+    let (res, calls) := fallback m syn sack sock
+    pure s!"{showOut res} {calls.syn} {calls.sack} {calls.synSocket}"
+  | _ => badOp
+
+/-- `pol.e2e <isTcp> <method>` → the method `runE2eProbeOnce` passes on -/
+def e2eH : Handler
+  | [t, m] => orBad do
+    let t ← parseBool t
+    let m ← parseMethod m
+    pure (showMethod (e2eMethod t m))
+  | _ => badOp
+
+/-- `pol.spec <method> <syn> <sack> <sock> <observed result> <nSyn> <nSack> <nSock>` → policy predicate -/
+def specH : Handler
+  | [m, syn, sack, sock, res, a, b, c] => orBad do
+    let m ← parseMethod m
+    let syn ← parseOut syn; let sack ← parseOut sack; let sock ← parseOut sock
+    let res ← parseOut res
+    let a ← a.toNat?; let b ← b.toNat?; let c ← c.toNat?
+    pure (showBool (policyOK m syn sack sock res { syn := a, sack := b, synSocket := c }))
+  | _ => badOp
+
+def failures : List (String × SackFailure) :=
+  [("invalid-params", .invalidParams), ("local-addr", .localAddr), ("source-sink", .sourceSink),
+   ("filter-synack", .filterSynack), ("must-close-port", .mustClosePort), ("driver-init", .driverInit),
+   ("dial", .dial), ("local-addr-type", .localAddrType), ("local-addr-mismatch", .localAddrMismatch),
+   ("handshake-deadline", .handshakeDeadline), ("handshake-timeout", .handshakeTimeout),
+   ("handshake-read", .handshakeRead), ("handshake-trunc-ts", .handshakeTruncTS),
+   ("no-sack-permitted", .noSackPermitted), ("filter-tcp", .filterTCP), ("send", .send), ("read", .read),
+   ("ack-without-sack", .ackWithoutSack), ("engine-other", .engineOther), ("to-hops", .toHops),
+   ("make-params", .makeParams)]
+
+/-- `pol.sack <failure>` → `<unsupported 0/1> <depth of the NotSupported layer or -> <chain length>` -/
+def sackH : Handler
+  | [f] => orBad do
+    let f ← failures.lookup f
+    let c := sackChain f
+    let depth := match c.findIdx? (· == .notSupported) with
+      | some i => toString i
+      | none => "-"
+    pure s!"{showBool (sackUnsupported f)} {depth} {c.length}"
+  | _ => badOp
+
+def handlers : List (String × Handler) :=
+  [("pol.fallback", fallbackH), ("pol.e2e", e2eH), ("pol.spec", specH), ("pol.sack", sackH)]
 
 end TRV.Oracle.Policy
